@@ -57,7 +57,9 @@ ASSUMPTIONS = [
 ]
 RULE = (
     "case = close path x configuration (standard_compatible, peer behaviour, inner close steps / error, scripted send/recv "
-    "error, busy sender) x cancellation after task step k, k = 1 … N-1 exhaustively (N from a baseline run); non-trivial = "
+    "error, busy sender; TLS: shutdown_timeout 0 / tiny / 5 x peer's close_notify already read x wrapped send that does "
+    "not suspend; client: close while the connection attempt of another task is in progress, close run as a task / in a "
+    "cancel scope / under move_on_after) x cancellation after task step k, k = 1 … N-1 exhaustively (N from a baseline run); non-trivial = "
     "an injection or a scripted failure or a timeout actually occurred; distinct by full case digest"
 )
 
@@ -92,6 +94,8 @@ def oracle(case: dict, real: list[str]) -> str | None:
     if alive and alive != "t=1":
         return (f"{case['path']}: only the close call was cancelled (scope around client.aclose(), at {_field(real, 'at') or '-'}, "
                 f"outcome {outcome}); the connection task lives on and the wrapped transport is still open")
+    if case["path"] == "tcpconnect":
+        return _oracle_connect(case, real, outcome)
     if must:
         flags = dict(x.split("=") for x in _field(real, "inner-later").split())
         open_ = [n for n, v in flags.items() if v != "1"]
@@ -111,6 +115,31 @@ def oracle(case: dict, real: list[str]) -> str | None:
     return None
 
 
+def _oracle_connect(case: dict, real: list[str], outcome: str) -> str | None:
+    """close while the connection attempt is in progress: once the close operation has ended - returned, failed, timed
+    out or was cancelled - the attempt is abandoned: no transport of the client is open once the connecting calls are
+    over (the raw transport of a half-made connection is released by the connecting task, one loop turn after the close at
+    the earliest: only the state after that is judged), none of them is still running, the client is not connected with an
+    open transport, is_closing() is true, a second close returns at once."""
+    c = (case.get("params") or {}).get("connecting") or {}
+    what = (f"aclose() during a connection attempt started by {c.get('via')} (slow {c.get('slow')}), close ended "
+            f"{outcome} (cancelled at {_field(real, 'at') or '-'})")
+    if _field(real, "closing") != "1":
+        return f"tcpconnect: is_closing() is false after the close ended; {what}"
+    pending = _field(real, "connect-pending")
+    if pending not in ("0", ""):
+        return f"tcpconnect: the connection attempt is still running long after the close ended ({_field(real, 'connect')}); {what}"
+    flags = dict(x.split("=") for x in _field(real, "inner-later").split())
+    open_ = [n for n, v in flags.items() if v != "1"]
+    if open_:
+        return (f"tcpconnect: the client came up with an OPEN transport after the close ended (connecting calls: "
+                f"{_field(real, 'connect')}, is_connected {_field(real, 'connected')}); {what}")
+    second = _field(real, "second")
+    if second and not second.startswith("ok dt=0"):
+        return f"tcpconnect: second close: {second}; {what}"
+    return None
+
+
 def nontrivial(case: dict, real: list[str]) -> str | None:
     p = case.get("params") or {}
     feats = []
@@ -126,6 +155,15 @@ def nontrivial(case: dict, real: list[str]) -> str | None:
         feats.append("busy")
     if p.get("via"):
         feats.append("via-" + p["via"])
+    if p.get("connecting"):
+        c = p["connecting"]
+        feats.append(f"connecting-{c.get('via')}-{c.get('slow')}-{p.get('close', 'task')}")
+    if case["path"] == "tls" and float(p.get("shutdown_timeout", 30)) == 0:
+        feats.append("timeout0")
+    if p.get("read_eof"):
+        feats.append("eof-read")
+    if p.get("sync_send"):
+        feats.append("sync-send")
     if not feats:
         return None
     return case["path"] + "/" + "+".join(feats)
@@ -142,6 +180,13 @@ def shrink(case: dict):
     for k in ("send_err", "recv_err", "data"):
         if p.get(k):
             yield {**case, "params": {**p, k: 0}}
+    c = p.get("connecting")
+    if c:
+        if "+" in c.get("via", ""):
+            for v in c["via"].split("+"):
+                yield {**case, "params": {**p, "connecting": {**c, "via": v}}}
+        if c.get("slow") != "resolve":
+            yield {**case, "params": {**p, "connecting": {**c, "slow": "resolve"}}}
     if case.get("step") and case["step"] > 1:
         yield {**case, "step": case["step"] - 1}
 
@@ -173,6 +218,12 @@ def decisions(case: dict, real: list[str], aux: dict) -> list[str] | None:
     out: list[str] = []
     in_retry = False
     last = "ok"
+    p = case.get("params") or {}
+    if (case["path"] == "tls" and p.get("sc", True) and (p.get("read_eof") or p.get("sync_send"))
+            and (not chains or any(q.endswith("PipeEnd.aclose") for q in chains[0]))):
+        # the closing handshake (unwrap + flush of our close_notify) completed without a single suspension: the retry loop is
+        # over before the first decision is consumed
+        out.append("stop")
     for j, ch in enumerate(chains, start=1):
         retry = any(q.endswith("_retry_ssl_method") for q in ch)
         if in_retry and not retry and last == "ok":
@@ -199,6 +250,13 @@ def model_input(case: dict, real: list[str]):
     if aux is None or case["path"] in ("srvclient", "sockadapter"):
         return None
     p = case.get("params") or {}
+    if (case["path"] == "tls" and p.get("sc", True) and float(p.get("shutdown_timeout", 30)) == 0
+            and case.get("step") is not None):
+        # an external task.cancel() landing on the suspension at which the already-expired shutdown scope delivers its own
+        # cancellation: which of the two the scope reports (`cancelled_caught`, close returns) or lets through (CancelledError)
+        # is a matter of the cancel-scope implementation (C13), not of this control-flow model ("the external one wins"):
+        # these runs are judged by the oracle only (the wrapped transport must be closed either way)
+        return None
 
     def ic(d):
         d = d or {}
@@ -277,6 +335,30 @@ def configurations(tier: str) -> list[tuple[str, dict]]:
         for n in (1, 2, 3):
             cfgs.append(("tlswrap", {"hs": "ok", "inner": a, "send_err": n}))
             cfgs.append(("tlswrap", {"hs": "ok", "inner": a, "recv_err": n}))
+    # --- shutdown_timeout 0 / tiny x what the peer already did x a wrapped transport whose send does not suspend: the number
+    #     of suspensions of the closing handshake goes down to ZERO (peer's close_notify already read, our alert written
+    #     without blocking), so the scope can be expired (cancel_called) without ever having delivered its cancellation
+    iv2 = iv if tier == "thorough" else [{"steps": 0}, {"steps": 1}, {"steps": 1, "err": True}]
+    for a in iv2:
+        for st in (0, 0.001, 5):
+            for peer in ("reply", "silent", "first", "firstgone", "drop"):
+                for sync in (False, True):
+                    if st == 5 and not sync and peer != "firstgone":
+                        continue        # (already listed above)
+                    cfgs.append(("tls", {"sc": True, "peer": peer, "inner": a, "shutdown_timeout": st, "sync_send": sync}))
+            for peer in ("first", "firstgone"):
+                for sync in (False, True):
+                    cfgs.append(("tls", {"sc": True, "peer": peer, "inner": a, "shutdown_timeout": st, "sync_send": sync,
+                                         "read_eof": True}))
+        cfgs.append(("tls", {"sc": False, "peer": "first", "inner": a, "shutdown_timeout": 0, "sync_send": True,
+                             "read_eof": True}))
+    # --- close while the connection attempt is in progress
+    for a in iv2:
+        for slow in ("resolve", "tls", "tlssilent"):
+            for via in ("wait", "send", "eof", "recv", "wait+send"):
+                for close in ("task", "scope", "moveon"):
+                    cfgs.append(("tcpconnect", {"connecting": {"via": via, "slow": slow, "delay": 5}, "close": close,
+                                                "bound": 1, "inner": a}))
     if tier == "thorough":
         for steps in (3, 5):
             a = {"steps": steps}
@@ -300,6 +382,21 @@ def corpus() -> list[dict]:
         {"path": "stapled", "params": {"send": {"steps": 1, "err": True}, "recv": {"steps": 1}}, "step": None},
         {"path": "tlswrap", "params": {"hs": "garbage", "inner": {"steps": 1}}, "step": None},
         {"path": "tcpclient", "params": {"inner": {"steps": 1}}, "step": 1},
+        # shutdown_timeout=0, the peer's close_notify already read, flushing ours does not suspend: the closing handshake has
+        # no suspension at all; the wrapped transport must still be closed
+        {"path": "tls", "params": {"sc": True, "peer": "first", "inner": {"steps": 0}, "shutdown_timeout": 0,
+                                   "sync_send": True, "read_eof": True}, "step": None},
+        {"path": "tls", "params": {"sc": True, "peer": "firstgone", "inner": {"steps": 1}, "shutdown_timeout": 0,
+                                   "sync_send": True, "read_eof": True}, "step": 1},
+        {"path": "tls", "params": {"sc": True, "peer": "silent", "inner": {"steps": 1}, "shutdown_timeout": 0,
+                                   "sync_send": True}, "step": None},
+        # aclose() while a send_packet() of another task is still connecting (it owns the send lock), cancelled / bounded
+        {"path": "tcpconnect", "params": {"connecting": {"via": "send", "slow": "tls", "delay": 5}, "close": "task",
+                                          "inner": {"steps": 0}}, "step": 1},
+        {"path": "tcpconnect", "params": {"connecting": {"via": "send", "slow": "resolve", "delay": 5}, "close": "moveon",
+                                          "bound": 1, "inner": {"steps": 0}}, "step": None},
+        {"path": "tcpconnect", "params": {"connecting": {"via": "wait", "slow": "tls", "delay": 5}, "close": "scope",
+                                          "inner": {"steps": 1}}, "step": None},
     ]
 
 
